@@ -1044,7 +1044,7 @@ func c17Run(c *core.Ctx) {
 }
 
 func c17Replay(c *core.Ctx, payload json.RawMessage) {
-	if c17NestedReplay(c, payload) || c17TwinsReplay(c, payload) || c17FamReplay(c, payload) {
+	if c17NestedReplay(c, payload) || c17TwinsReplay(c, payload) || c17DistOrderReplay(c, payload) || c17FamReplay(c, payload) {
 		return
 	}
 	var fam struct {
